@@ -631,6 +631,19 @@ func (l *Lowerer) localVarNamed(obj types.Object, sort string) string {
 			break
 		}
 	}
+	// the implicit variables of a type switch (one per clause) share name and position: number them
+	for k := 2; ; k++ {
+		clash := false
+		for _, used := range l.fr.objVar {
+			if used == name {
+				clash = true
+			}
+		}
+		if !clash {
+			break
+		}
+		name = fmt.Sprintf("%s'%d", strings.SplitN(name, "'", 2)[0], k)
+	}
 	l.fr.objVar[obj] = name
 	if sort == "Int" && l.isBoxed(obj) {
 		return name
